@@ -112,8 +112,11 @@ TEXT = {
             "(+ - * // % & | ^, both operand orders, same-type or plain-int operand) return the exact mathematical result "
             "or ValueError / ZeroDivisionError, never a wrapped or widened value; other-width operands refused; bitwise "
             "and div/mod never overflow; shifts = (a*2^s) mod 2^w and a/2^s; ~a = 2^w-1-a; neg/truediv unsupported. "
-            "Tie to code: basic.py operators run against the model on boundary/random operands for all six widths.",
-            "Coq proof (lia + Z bit lemmas) + vm_compute correspondence with basic.py", "5 (C13)"),
+            "Tie to code, twice: (1) class uint of basic.py is TRANSLATED into Gallina on every run (fail-closed AST translator) and "
+            "30 theorems eq_* prove the generated constructor / coerce_view / operator methods equal to the model for every "
+            "width, operand kind and value (coq/trans/UintEq.v compiled against the fresh translation); (2) basic.py operators run "
+            "against the model on boundary/random operands for all six widths, incl. user-defined uint subclasses.",
+            "Coq proof (lia + Z bit lemmas) + translation of the source with machine-checked equivalence to the model + vm_compute correspondence with basic.py", "5 (C13)"),
     "C14": ("Theorems: a failing command on a top-level view or copy, or through a child view at the bottom of a valid hook "
             "chain of any depth, leaves the whole store unchanged (C14_unchanged, C14_unchanged_on_chain); the constructor "
             "of every type accepts exactly the arguments denoting a valid value and builds a backing representing it "
